@@ -29,7 +29,7 @@ pub fn mix(a: u64, b: u64) -> u64 {
 
 /// Generator version. Generators only ever GROW behind a version test, so that a replay file recorded with an
 /// older version keeps denoting the same case: a replay without `gen_version` is version 1.
-pub const CURRENT_GEN_VERSION: u32 = 4;
+pub const CURRENT_GEN_VERSION: u32 = 5;
 static GEN_VERSION: std::sync::atomic::AtomicU32 = std::sync::atomic::AtomicU32::new(CURRENT_GEN_VERSION);
 
 pub fn gen_version() -> u32 {
